@@ -1015,6 +1015,33 @@ def rule_shape(repo):
     return euler_shape_clause(repo, res, 'C11.SHAPE')
 
 
+@guarded
+def rule_eulerarg(repo):
+    """euler2SO3 reads its argument as (.., 3) triples (roll, pitch, yaw) for EVERY rank, the un-batched (3,) included: the width assertion is the first thing that
+    happens to the tensor.  A rank test that re-builds the argument first ("a vector of N yaw angles") turns the un-batched triple into three yaw angles."""
+    res = RuleResult('C11.EULERARG', 'euler2SO3 asserts the width 3 of its argument before anything re-shapes or re-builds it: no rank-dependent re-interpretation of '
+                     'the last axis', floor=1)
+    f = repo.func(CV, 'euler2SO3')
+    p0 = f.pos_params[0]
+    asserts = [n for n in ast.walk(f.node) if isinstance(n, ast.Assert) and any(isinstance(x, ast.Name) and x.id == p0 for x in ast.walk(n.test)) and
+               any(isinstance(x, ast.Constant) and x.value == 3 for x in ast.walk(n.test))]
+    if not asserts:
+        raise AnalysisError('C11.EULERARG: euler2SO3 no longer asserts the width of its argument')
+    first = min(a.lineno for a in asserts)
+    n = 0
+    for a in ast.walk(f.node):
+        if isinstance(a, ast.Assign) and a.lineno < first and any(isinstance(t, ast.Name) and t.id == p0 for t in a.targets):
+            conv = isinstance(a.value, ast.Call) and dotted(a.value.func) in ('torch.tensor', 'torch.as_tensor', 'torch.Tensor') and len(a.value.args) == 1 and \
+                isinstance(a.value.args[0], ast.Name) and a.value.args[0].id == p0
+            n += 1
+            res.inst({'function': f.fq, 'rebinding before the width check': src(a)[:60], 'is the tensor conversion': conv}, (f.fq, src(a)[:60]))
+            if not conv:
+                res.add(Finding('C11.EULERARG', f, '`%s` re-builds the argument before its width is checked: an input form decided by rank (a vector of yaw angles) swallows '
+                                'the un-batched (3,) triple, which comes back as three rotations about z' % src(a)[:60], node=a, construct='argument re-interpreted before the width check'))
+    res.inst({'function': f.fq, 'width assertion': src(asserts[0])[:50]}, (f.fq, 'assert'))
+    return res
+
+
 def rules(repo, tier):
     from ..memo import rule_memo
     from ..optional import rule_optional
@@ -1022,7 +1049,7 @@ def rules(repo, tier):
     from ..callsig import rule_callsig
     from ..docsig import rule_docsig
     from ..axisdefault import rule_axisdefault
-    return list(_rules_core(repo, tier)) + [rule_shape(repo), __import__('sa.mode', fromlist=['x']).rule_guardset(repo, 'C11.GUARDSL', ['pypose.lietensor.lietensor']), rule_memo(repo, 'C11.MEMO', 'history independence: nothing computed from the contents of a tensor argument is kept '
+    return list(_rules_core(repo, tier)) + [rule_shape(repo), rule_eulerarg(repo), __import__('sa.mode', fromlist=['x']).rule_guardset(repo, 'C11.GUARDSL', ['pypose.lietensor.lietensor']), rule_memo(repo, 'C11.MEMO', 'history independence: nothing computed from the contents of a tensor argument is kept '
                                                       'under the identity, address or version of that tensor, in module-level storage, or published from a generator '
                                                       'before it is complete - a later call with the same object and other contents must not be answered from it',
                                                       ['pypose.lietensor.convert'], floor=3),
